@@ -224,6 +224,7 @@ def run(ck):
     ck.run_rule("G1", "deferred thunks capture by value", 20, thunks.rule_G1)
     ck.run_rule("C12.R6", "'.link' passes its raw operand", 1, rule_R6)
     ck.run_rule("C03.R7", "LinearPolynomial algebra (the base cancels in K + end - start)", 18, c03.rule_R7)
+    ck.run_rule("C03.R7t", "the base cancels in 'K + end - start' as written: + - * do not force unknown operands", 6, c03.rule_R7t)
     ck.run_rule("C02.R7", "linked files are placed at base + lengths of the files before them", 3, c02.rule_R7)
     from . import c18
     ck.run_rule("G5.memo", "the base is the value of the expression in THIS source: parse trees and values are not memoised across assemblies", 40, c18.rule_memo)
